@@ -10,8 +10,10 @@ Record np := mkNP { n_mintx : Z; n_maxtx : Z; n_quorum : Z; n_endtime : Z; n_ena
                     n_endblocks : Z; n_enactblocks : Z }.
 Definition NDUR : nat := 8.   (* proposal type codes 1..8 *)
 Definition NREG : nat := 4.   (* registry key codes 1..4 *)
+(* one spending pool ("probe1"): only what the dynamic-voter proposal lifecycle reads *)
+Record pool := mkPool { pl_owners : list Z; pl_quorum : Z; pl_period : Z; pl_enact : Z }.
 Record world := mkW { w_np : np; w_actors : list (Z * actor) (* sorted by id *);
-                      w_durs : list Z; w_reg : list Z }.
+                      w_durs : list Z; w_reg : list Z; w_pool : option pool }.
 
 (* ---- canonical containers *)
 Fixpoint ins_sorted (x : Z) (l : list Z) : list Z :=
@@ -68,14 +70,18 @@ Inductive ccontent :=
 | CRegistry (key hash : Z)            (* UpsertDataRegistryProposal *)
 | CWhitelist (who perm : Z)           (* WhitelistAccountPermissionProposal *)
 | CUnwhitelist (who perm : Z)         (* RemoveWhitelistedAccountPermissionProposal *)
-| CDurations (l : list (Z * Z)).      (* SetProposalDurationsProposal: (type code, seconds) *)
+| CDurations (l : list (Z * Z))       (* SetProposalDurationsProposal: (type code, seconds) *)
+| CPoolUpdate (name : Z) (owners : list Z) (q period enact : Z).
+   (* spending UpdateSpendingPoolProposal: proposal and vote permission are PermZero, i.e. the voters,
+      quorum, voting period and enactment period come from the pool (dynamic-voter proposal);
+      pool name code 1 = "probe1", anything else = a pool that does not exist *)
 
 Definition ptype (c : ccontent) : Z :=
-  match c with CSetProp _ _ => 1 | CRegistry _ _ => 2 | CWhitelist _ _ => 3 | CUnwhitelist _ _ => 4 | CDurations _ => 5 end.
+  match c with CSetProp _ _ => 1 | CRegistry _ _ => 2 | CWhitelist _ _ => 3 | CUnwhitelist _ _ => 4 | CDurations _ => 5 | CPoolUpdate _ _ _ _ _ => 6 end.
 Definition prop_perm (c : ccontent) : Z :=
-  match c with CSetProp _ _ => 12 | CRegistry _ _ => 10 | CWhitelist _ _ => 4 | CUnwhitelist _ _ => 35 | CDurations _ => 31 end.
+  match c with CSetProp _ _ => 12 | CRegistry _ _ => 10 | CWhitelist _ _ => 4 | CUnwhitelist _ _ => 35 | CDurations _ => 31 | CPoolUpdate _ _ _ _ _ => 0 end.
 Definition vote_perm (c : ccontent) : Z :=
-  match c with CSetProp _ _ => 13 | CRegistry _ _ => 11 | CWhitelist _ _ => 5 | CUnwhitelist _ _ => 36 | CDurations _ => 32 end.
+  match c with CSetProp _ _ => 13 | CRegistry _ _ => 11 | CWhitelist _ _ => 5 | CUnwhitelist _ _ => 36 | CDurations _ => 32 | CPoolUpdate _ _ _ _ _ => 0 end.
 
 (* Content.ValidateBasic (SetNetworkProperty: MinProposalEndBlocks / MinProposalEnactmentBlocks
    are not in its list of allowed identifiers) *)
@@ -92,16 +98,40 @@ Definition w_is_active (w : world) (who : Z) : bool :=
   match get_actor who (w_actors w) with Some a => a_active a | None => false end.
 Definition w_voters (w : world) (perm : Z) : list (Z * actor) :=
   filter (fun ka => mem perm (a_wl (snd ka))) (w_actors w).
-Definition w_nvoters (w : world) (c : ccontent) : Z := Z.of_nat (List.length (w_voters w (vote_perm c))).
+(* the pool a dynamic-voter content refers to *)
+Definition pool_of (w : world) (c : ccontent) : option pool :=
+  match c with CPoolUpdate 1 _ _ _ _ => w_pool w | _ => None end.
+Fixpoint nodup_z (l : list Z) : list Z :=
+  match l with [] => [] | x :: r => if mem x r then nodup_z r else x :: nodup_z r end.
+(* spending keeper IsAllowedAddress / AllowedAddresses on the pool's owner accounts (no owner roles) *)
+Definition pool_allowed (w : world) (who : Z) (c : ccontent) : bool :=
+  match pool_of w c with Some p => mem who (pl_owners p) | None => false end.
+Definition w_can (w : world) (who perm : Z) (c : ccontent) : bool :=
+  if perm =? 0 then pool_allowed w who c else w_has_perm w who perm.
+(* processProposal: holders of the vote permission; for PermZero the router's allowed addresses,
+   and 1 when there are none *)
+Definition w_nvoters (w : world) (c : ccontent) : Z :=
+  if vote_perm c =? 0 then
+    let n := match pool_of w c with Some p => Z.of_nat (List.length (nodup_z (pl_owners p))) | None => 0 end in
+    if n =? 0 then 1 else n
+  else Z.of_nat (List.length (w_voters w (vote_perm c))).
+(* veto-capable voters: taken from the holders of the vote permission ALSO for PermZero *)
 Definition w_nveto (w : world) (c : ccontent) : Z :=
   Z.of_nat (List.length (filter (fun ka => a_veto (snd ka)) (w_voters w (vote_perm c)))).
+Definition w_quorum (w : world) (c : ccontent) : Z :=
+  if vote_perm c =? 0 then match pool_of w c with Some p => pl_quorum p | None => 0 end else n_quorum (w_np w).
 Definition w_end_secs (w : world) (c : ccontent) : Z :=
-  let d := get_ix (ptype c) (w_durs w) in if d <? n_endtime (w_np w) then n_endtime (w_np w) else d.
+  if vote_perm c =? 0 then match pool_of w c with Some p => pl_period p | None => 0 end
+  else let d := get_ix (ptype c) (w_durs w) in if d <? n_endtime (w_np w) then n_endtime (w_np w) else d.
+Definition w_enact_secs (w : world) (c : ccontent) : Z :=
+  if vote_perm c =? 0 then match pool_of w c with Some p => pl_enact p | None => 0 end else n_enact (w_np w).
 
 (* ---- handlers *)
-Definition with_np (w : world) (n : np) : world := mkW n (w_actors w) (w_durs w) (w_reg w).
-Definition with_actors (w : world) (l : list (Z * actor)) : world := mkW (w_np w) l (w_durs w) (w_reg w).
-Definition with_durs (w : world) (l : list Z) : world := mkW (w_np w) (w_actors w) l (w_reg w).
+Definition with_np (w : world) (n : np) : world := mkW n (w_actors w) (w_durs w) (w_reg w) (w_pool w).
+Definition with_actors (w : world) (l : list (Z * actor)) : world := mkW (w_np w) l (w_durs w) (w_reg w) (w_pool w).
+Definition with_durs (w : world) (l : list Z) : world := mkW (w_np w) (w_actors w) l (w_reg w) (w_pool w).
+Definition with_reg (w : world) (l : list Z) : world := mkW (w_np w) (w_actors w) (w_durs w) l (w_pool w).
+Definition with_pool (w : world) (p : option pool) : world := mkW (w_np w) (w_actors w) (w_durs w) (w_reg w) p.
 
 Definition whitelist (who perm : Z) (w : world) : outcome world :=
   let a := match get_actor who (w_actors w) with Some a => a | None => default_actor end in
@@ -140,10 +170,14 @@ Definition c_handler (ret_err : bool) (c : ccontent) (w : world) : outcome world
       (* harness probe (harness/cmd/c08, wrapper around the real handler): an upsert with hash code 9
          fails AFTER the real handler wrote, when registry key 4 was already present *)
       if (hash =? 9) && negb (get_ix 4 (w_reg w) =? 0) then Err "probe: failing after write"
-      else Ok (mkW (w_np w) (w_actors w) (w_durs w) (set_ix key hash (w_reg w)))
+      else Ok (with_reg w (set_ix key hash (w_reg w)))
   | CWhitelist who perm => whitelist who perm w
   | CUnwhitelist who perm => unwhitelist who perm w
   | CDurations l => apply_durations ret_err l w
+  | CPoolUpdate name owners q period enact =>
+      match pool_of w c with
+      | Some _ => Ok (with_pool w (Some (mkPool owners q period enact)))
+      | None => Err "pool does not exist" end
   end.
 
 (* ---- direct edits made by the harness between messages (keeper calls; failures change nothing) *)
@@ -172,9 +206,9 @@ Definition cstate := state world ccontent.
 Definition cop := op ccontent cext.
 Definition c_params (ret_err : bool) (dec : tally -> vresult) : params world ccontent cext :=
   mkParams world ccontent cext valid_basic
-       (fun w who c => w_has_perm w who (prop_perm c)) w_is_active
-       (fun w who c => w_has_perm w who (vote_perm c)) w_nvoters w_nveto
-       (fun w _ => n_quorum (w_np w)) w_end_secs (fun w _ => n_enact (w_np w))
+       (fun w who c => w_can w who (prop_perm c) c) w_is_active
+       (fun w who c => w_can w who (vote_perm c) c) w_nvoters w_nveto
+       w_quorum w_end_secs w_enact_secs
        (fun w => n_endblocks (w_np w)) (fun w => n_enactblocks (w_np w)) (c_handler ret_err) c_ext dec.
 Definition c_step (ret_err : bool) (dec : tally -> vresult) : ctx -> cop -> cstate -> outcome cstate :=
   step world ccontent cext (c_params ret_err dec).
